@@ -1191,4 +1191,40 @@ func litestream.(*VFSFile).pollReplicaClient(f, ctx) (err)
   loop 2 invariant f == old(f) && combined != nil && target != nil && combined != target && (targetIsMain ==> target == f.index) && f.commit == old(f.commit) && (old(f.lockType) < 1 ==> targetIsMain) && (!replaceIndex ==> newCommit >= old(f.commit))
   loop 2 invariant (forall p int :: {has(combined, p)} has(combined, p) ==> p <= newCommit)
   loop 2 invariant targetIsMain && old(forall p int :: {has(f.index, p)} has(f.index, p) ==> p <= f.commit) ==> (forall p int :: {has(f.index, p)} has(f.index, p) ==> p <= (replaceIndex ? newCommit : ((len(combined) > 0 && newCommit > f.commit) ? newCommit : f.commit)))
+
+// ---------------------------------------------------------------------------
+// C15: the time bounds a timestamp restore is validated against. A-created-nonzero: listed files carry a
+// non-zero creation time.
+pred createdOK(cl int, lv int) = forall k int :: {replFile(cl, lv, k)} 0 <= k && k < replN(cl, lv) ==> fcreated(replFile(cl, lv, k)) > 0
+func litestream.(*Replica).TimeBounds(r, ctx) (createdAt, updatedAt, err)
+  requires r != nil && r.Client != nil
+  assumes forall lv int :: {replN(r.Client, lv)} 0 <= lv && lv <= 9 ==> createdOK(r.Client, lv)     // A-created-nonzero
+  modifies $alloc, it_idx
+  ensures [C15.bounds] err == nil ==> (forall lv int, k int :: {replFile(old(r.Client), lv, k)} 0 <= lv && lv <= 9 && 0 <= k && k < replN(old(r.Client), lv) ==> createdAt <= fcreated(replFile(old(r.Client), lv, k)) && fcreated(replFile(old(r.Client), lv, k)) <= updatedAt && createdAt > 0)
+  ensures [C15.bounds-empty] err == nil && createdAt == 0 ==> updatedAt == 0 && (forall lv int :: {replN(old(r.Client), lv)} 0 <= lv && lv <= 9 ==> replN(old(r.Client), lv) == 0)
+  loop 0 invariant r == old(r) && r.Client == old(r.Client) && -1 <= level && level <= 9 && (createdAt == 0 <==> updatedAt == 0) && createdAt >= 0
+  loop 0 invariant (forall lv int, k int :: {replFile(r.Client, lv, k)} level < lv && lv <= 9 && 0 <= k && k < replN(r.Client, lv) ==> createdAt <= fcreated(replFile(r.Client, lv, k)) && fcreated(replFile(r.Client, lv, k)) <= updatedAt && createdAt > 0)
+  loop 0 invariant createdAt == 0 ==> (forall lv int :: {replN(r.Client, lv)} level < lv && lv <= 9 ==> replN(r.Client, lv) == 0)
+  loop 1 invariant r == old(r) && r.Client == old(r.Client) && 0 <= level && level <= 9 && itr != nil && itOK(itr) && it_client[itr] == r.Client && it_level[itr] == level && (createdAt == 0 <==> updatedAt == 0) && createdAt >= 0 && wfLevel(r.Client, level)
+  loop 1 invariant (forall lv int, k int :: {replFile(r.Client, lv, k)} level < lv && lv <= 9 && 0 <= k && k < replN(r.Client, lv) ==> createdAt <= fcreated(replFile(r.Client, lv, k)) && fcreated(replFile(r.Client, lv, k)) <= updatedAt && createdAt > 0)
+  loop 1 invariant (forall k int :: {item(itr, k)} 0 <= k && k < it_idx[itr] ==> createdAt <= fcreated(item(itr, k)) && fcreated(item(itr, k)) <= updatedAt && createdAt > 0)
+  loop 1 invariant createdAt == 0 ==> it_idx[itr] == 0 && (forall lv int :: {replN(r.Client, lv)} level < lv && lv <= 9 ==> replN(r.Client, lv) == 0)
+
+ghost c15_lo Int
+ghost c15_hi Int
+ghost c15_tbErr Int
+ghost c15_v3lo Int
+ghost c15_v3hi Int
+// A timestamp before the first backup or after the last one (LTX and v0.3.x together) is refused.
+func litestream.(*Replica).CalcRestoreTarget(r, ctx, opt) (updatedAt, err)
+  requires r != nil && r.Client != nil && c15_v3lo == 0 && c15_v3hi == 0
+  modifies $heap, $alloc, it_idx, c15_lo, c15_hi, c15_tbErr, c15_v3lo, c15_v3hi
+  at litestream.(*Replica).TimeBounds#1 set c15_lo = $result0
+  at litestream.(*Replica).TimeBounds#1 set c15_hi = $result1
+  at litestream.(*Replica).TimeBounds#1 set c15_tbErr = $result2
+  at litestream.(*Replica).TimeBoundsV3#1 set c15_v3lo = $result0
+  at litestream.(*Replica).TimeBoundsV3#1 set c15_v3hi = $result1
+  ensures [C15.before-first] opt.Timestamp != 0 && c15_tbErr == nil && c15_lo != 0 && opt.Timestamp < c15_lo && (c15_v3lo == 0 || opt.Timestamp < c15_v3lo) ==> err != nil
+  ensures [C15.after-last] opt.Timestamp != 0 && c15_tbErr == nil && c15_hi != 0 && opt.Timestamp > c15_hi && (c15_v3hi == 0 || opt.Timestamp > c15_v3hi) ==> err != nil
+  ensures [C15.no-backups] opt.Timestamp != 0 && c15_tbErr == nil && c15_lo == 0 && c15_hi == 0 && c15_v3lo == 0 && c15_v3hi == 0 ==> err != nil
 */
